@@ -449,7 +449,7 @@ func judgeCall(r *vh.Run, f *failer, c *caseCfg, o *callObs, idx int) {
 			if p.ProduceQuirk {
 				f.fail("unadvertised key written when the broker does not advertise Produce", det())
 			} else {
-				f.fail("request written although no admissible version exists ("+p.Class+")", det())
+				f.fail("request written although no admissible version exists", det())
 			}
 			return
 		}
@@ -470,7 +470,7 @@ func judgeCall(r *vh.Run, f *failer, c *caseCfg, o *callObs, idx int) {
 	v := o.Frames[0]
 	switch {
 	case v > p.Version:
-		f.fail("written version above a maximum ("+p.Class+")", det())
+		f.fail("written version above a maximum", det())
 	case v < p.Lower:
 		f.fail("written version below a minimum", det())
 	case v != p.Version:
